@@ -62,7 +62,7 @@ def run_case(ctx, kind_, idx):
     from traffic_weaver.process import interpolate
     rng = ctx.rng(kind_, idx)
     cid = ctx.case_id(kind_, idx)
-    x, y, meta = R.gen_series(rng, 4, 60, ties_share=0.2)
+    x, y, meta = R.gen_series(rng, 4, 60, ties_share=0.2, long_share=R.LONG_SHARE)
     method = METHODS[int(rng.integers(0, 4))]
     affine = bool(rng.integers(0, 4) == 0)
     if affine:
@@ -122,7 +122,9 @@ def run_case(ctx, kind_, idx):
                 wv = wv0 if wv0 is not None else Weaver(x.copy(), y.copy())
                 n = int(rng.choice([2, 3, 5, 10, 100, 500, int(rng.integers(2, 501))]))
                 info["n"] = n
-                wv.interpolate(n) if method == "linear" and rng.integers(0, 2) else callform.call(rng, wv.interpolate, "Weaver.interpolate", [], {"n": n, "method": method})
+                n_arg, info["n_type"] = gen.count_arg(rng, n)
+                wv.interpolate(n_arg) if method == "linear" and rng.integers(0, 2) else \
+                    callform.call(rng, wv.interpolate, "Weaver.interpolate", [], {"n": n_arg, "method": method})
                 gx, gy = wv.get()
                 ctx.judged()
                 ctx.monitor("c13:weaver_grid")
